@@ -17,6 +17,10 @@ type ExecCase struct {
 	Balances map[string]map[string]string `json:"balances,omitempty"`
 	Meta     map[string]map[string]string `json:"meta,omitempty"`
 	Flags    []string                     `json:"flags,omitempty"`
+	// Warm, when not nil, is a second assignment of the caller-supplied variables: the
+	// parsed script is first executed once with it (outcome discarded) and then with Vars.
+	// An execution must not depend on an earlier one of the same parsed script.
+	Warm map[string]string `json:"warm,omitempty"`
 }
 
 // Display is what evidence samples show: the script as text plus its inputs.
@@ -79,6 +83,11 @@ type Knobs struct {
 	// PBalanceOrigin: chance (per case, up to 3 times) of a variable initialised by
 	// balance() / overdraft(); such variables are then used as sent amounts and caps
 	PBalanceOrigin int
+	// PWarm: chance that the case carries a warm-up assignment of its variables (ExecCase.Warm)
+	PWarm int
+	// PZeroPad: chance that the text of a number / monetary variable is written with leading
+	// zeros ("007", "USD 0100"): base ten whatever the spelling
+	PZeroPad int
 }
 
 func DefaultKnobs() Knobs {
@@ -89,7 +98,7 @@ func DefaultKnobs() Knobs {
 		DestOnly: []string{"x", "y", "z:1"},
 		PSendAll: 25, PSave: 12, PCall: 8, PKept: 12, PUnbounded: 5, PWorld: 8, PBounded: 18,
 		PAllotSrc: 12, PVarRepr: 22, PInfix: 10, PBig: 6, PNegCap: 12, PNegBal: 12, POrigin: 15,
-		PWorldFallback: 30, PRich: 15, PReuse: 25,
+		PWorldFallback: 30, PRich: 15, PReuse: 25, PWarm: 20, PZeroPad: 6,
 	}
 }
 
@@ -232,6 +241,9 @@ func (g *TG) newVarName() string {
 // meta() origin. Returns its name.
 func (g *TG) declare(typ, text string) string {
 	name := g.newVarName()
+	if (typ == "number" || typ == "monetary") && g.pct("zeropad", g.K.PZeroPad) {
+		text = ZeroPad(text, 1+g.n("zeropad.n", 0, 2))
+	}
 	d := VarDecl{Type: typ, Name: name}
 	if g.pct("origin", g.K.POrigin) {
 		acct := pickS(g, "origin.acct", append(append([]string{}, g.K.Accounts...), "meta:holder"))
@@ -247,6 +259,28 @@ func (g *TG) declare(typ, text string) string {
 	g.Decls = append(g.Decls, d)
 	g.Declared = append(g.Declared, DeclaredVar{Name: name, Type: typ, Text: text})
 	return name
+}
+
+// ZeroPad writes k zeros in front of the digits of a number ("12" -> "0012", "-5" -> "-05")
+// or of the amount of a monetary ("USD 12" -> "USD 0012").
+func ZeroPad(text string, k int) string {
+	i := 0
+	for j := 0; j < len(text); j++ {
+		if text[j] == ' ' {
+			i = j + 1
+		}
+	}
+	if i < len(text) && text[i] == '-' {
+		i++
+	}
+	if i >= len(text) || text[i] < '0' || text[i] > '9' {
+		return text
+	}
+	z := ""
+	for ; k > 0; k-- {
+		z += "0"
+	}
+	return text[:i] + z + text[i:]
 }
 
 // reuse returns an already declared variable of the given type whose text satisfies ok.
@@ -714,7 +748,51 @@ func (g *TG) Case() *ExecCase {
 	if g.K.OverdraftFlag {
 		ec.Flags = []string{"experimental-overdraft-function"}
 	}
+	if len(ec.Vars) > 0 && g.pct("warm", g.K.PWarm) {
+		ec.Warm = g.warmVars()
+	}
 	return ec
+}
+
+// warmVars: another well-typed assignment of the caller-supplied variables (most values
+// changed), for the warm-up execution.
+func (g *TG) warmVars() map[string]string {
+	out := map[string]string{}
+	for _, d := range g.Decls {
+		text, ok := g.Vars[d.Name]
+		if !ok {
+			continue
+		}
+		if !g.pct("warm.change", 75) {
+			out[d.Name] = text
+			continue
+		}
+		switch d.Type {
+		case "number":
+			out[d.Name] = big.NewInt(int64(g.n("warm.num", 0, 40))).String()
+		case "monetary":
+			asset := text
+			for i := 0; i < len(text); i++ {
+				if text[i] == ' ' {
+					asset = text[:i]
+					break
+				}
+			}
+			if g.pct("warm.mon.asset", 15) {
+				asset = pickS(g, "warm.asset", g.K.Assets)
+			}
+			out[d.Name] = asset + " " + big.NewInt(int64(g.n("warm.mon", 0, 40))).String()
+		case "portion":
+			out[d.Name] = pickS(g, "warm.portion", []string{"1/2", "1/3", "0/1", "1/1", "25%", "3/7", "12.5%"})
+		case "account":
+			out[d.Name] = pickS(g, "warm.acct", append(append([]string{}, g.K.Accounts...), "world", "other"))
+		case "asset":
+			out[d.Name] = pickS(g, "warm.asset2", g.K.Assets)
+		default:
+			out[d.Name] = text + "~"
+		}
+	}
+	return out
 }
 
 // SortedKeys helps deterministic iteration.
